@@ -174,6 +174,12 @@ func BuildLegacy(r *rand.Rand, root string, tag string) Legacy {
 		}
 		entries = append(entries, tagEntry(MTIndex, fbd, len(fb), alg+"-"+hex))
 		L.Fallback[alg+"-"+hex] = LFallback{Subject: sd, Lists: own}
+		if strings.ContainsAny(fbd[len(fbd)-1:], "0123") {
+			// index.json lists the fallback tag's entry twice (a tool that appends without looking): still one tag, one
+			// index of referrers.  Decided by the digest, not by the generator, so the other choices keep their sequence.
+			entries = append(entries, tagEntry(MTIndex, fbd, len(fb), alg+"-"+hex))
+			L.Kinds[len(L.Kinds)-1] += "+entry-twice"
+		}
 		if r.Intn(4) == 0 {
 			// an ordinary tag on the very same index: it is one of "every other tag" and stays
 			ot := fmt.Sprintf("artifacts-%d", si)
